@@ -1,2 +1,400 @@
-// Package c09: monitor for property C09 (see DESIGN.md section 2).
+// Package c09: corruption of stored data is detected, never served as valid.
+//
+// Pristine small stores are built and closed cleanly; the commit log and the entries' value references
+// locate every byte that holds a committed record or a referenced value. Each case alters some of those
+// bytes on a copy (every single bit; PRNG multi-bit; field-targeted; same-size splices), then a child
+// process opens the copy and drives every integrity-checked read path; each call must fail with an error
+// or return exactly what was committed.
 package c09
+
+import (
+	"encoding/json"
+	"fmt"
+	"os"
+	"path/filepath"
+	"strings"
+	"sync"
+	"time"
+
+	"github.com/codenotary/immudb/embedded/appendable"
+
+	"verifharness/internal/fw"
+)
+
+func init() {
+	fw.RegisterMonitor("C09", "fault_enumeration", Run)
+	fw.RegisterChild("c09-read", func(setup []byte, scratch string) func(i int, data []byte) []byte {
+		var dirs []string
+		json.Unmarshal(setup, &dirs)
+		return func(i int, data []byte) []byte {
+			var cs caseT
+			res := &result{}
+			if err := json.Unmarshal(data, &cs); err != nil {
+				res.Err = "case: " + err.Error()
+			} else if cs.S < 0 || cs.S >= len(dirs) {
+				res.Err = "case: store index"
+			} else if g, err := cachedGT(dirs[cs.S]); err != nil {
+				res.Err = "ground truth: " + err.Error()
+			} else {
+				res = execCase(g, cs, filepath.Join(scratch, fmt.Sprintf("m%d", i)))
+			}
+			b, _ := json.Marshal(res)
+			return b
+		}
+	})
+}
+
+var gtCache sync.Map
+
+func cachedGT(dir string) (*groundTruth, error) {
+	if v, ok := gtCache.Load(dir); ok {
+		return v.(*groundTruth), nil
+	}
+	g, err := loadGT(dir)
+	if err != nil {
+		return nil, err
+	}
+	gtCache.Store(dir, g)
+	return g, nil
+}
+
+func storeList(c *fw.Ctx) []storeCfg {
+	r := c.Rand("c09/stores")
+	mk := func(name string, emb bool, comp, ver, ioc, fsz, ntx int, full bool) storeCfg {
+		return storeCfg{Name: name, Embedded: emb, Compression: comp, HdrVersion: ver, IOConc: ioc, FileSize: fsz, NTx: ntx, Full: full, Seed: c.Seed}
+	}
+	sizes := []int{384, 512, 640}
+	if c.Quick() {
+		return []storeCfg{
+			mk("plain-v1", false, appendable.NoCompression, 1, 2, sizes[r.IntN(3)], 5, true),
+			mk("embedded-v0", true, appendable.NoCompression, 0, 1, sizes[r.IntN(3)], 5, true),
+			mk("zlib-v1", false, appendable.ZLibCompression, 1, 1, sizes[r.IntN(3)], 3, false),
+			mk("lzw-v0", false, appendable.LZWCompression, 0, 2, sizes[r.IntN(3)], 3, false),
+			mk("flate-v1", false, appendable.FlateCompression, 1, 3, sizes[r.IntN(3)], 3, false),
+			mk("gzip-v0", false, appendable.GZipCompression, 0, 1, sizes[r.IntN(3)], 3, false),
+		}
+	}
+	var out []storeCfg
+	for ver := 0; ver <= 1; ver++ {
+		out = append(out,
+			mk(fmt.Sprintf("plain-v%d", ver), false, appendable.NoCompression, ver, 1+ver, sizes[r.IntN(3)], 6, true),
+			mk(fmt.Sprintf("embedded-v%d", ver), true, appendable.NoCompression, ver, 1, sizes[r.IntN(3)], 6, true),
+			mk(fmt.Sprintf("flate-v%d", ver), false, appendable.FlateCompression, ver, 2-ver, sizes[r.IntN(3)], 6, true),
+			mk(fmt.Sprintf("gzip-v%d", ver), false, appendable.GZipCompression, ver, 1+2*ver, sizes[r.IntN(3)], 6, true),
+			mk(fmt.Sprintf("lzw-v%d", ver), false, appendable.LZWCompression, ver, 3-2*ver, sizes[r.IntN(3)], 6, true),
+			mk(fmt.Sprintf("zlib-v%d", ver), false, appendable.ZLibCompression, ver, 1+ver, sizes[r.IntN(3)], 6, true),
+		)
+	}
+	return out
+}
+
+type runner struct {
+	c       *fw.Ctx
+	gts     []*groundTruth
+	dirs    []string
+	setup   []byte
+	sampled int
+	// suspected hangs / leaked locks to confirm alone
+	suspects    []caseT
+	lockSuspect *caseT
+	lockCases   []string
+	outcomes    map[string]int
+}
+
+func (rn *runner) witness(cs caseT, extra map[string][]byte) map[string][]byte {
+	g := rn.gts[cs.S]
+	files := map[string][]byte{}
+	for _, f := range g.Files {
+		files["pristine__"+strings.ReplaceAll(f, string(filepath.Separator), "__")] = g.Data[f]
+	}
+	if b, err := os.ReadFile(filepath.Join(rn.dirs[cs.S], "gt.gob")); err == nil {
+		files["gt.gob"] = b
+	}
+	cs.S = 0
+	b, _ := json.MarshalIndent(cs, "", " ")
+	files["case.json"] = b
+	for k, v := range extra {
+		files[k] = v
+	}
+	return files
+}
+
+func (rn *runner) handle(cases []caseT, final bool) func(rs fw.CaseResult) {
+	c := rn.c
+	return func(rs fw.CaseResult) {
+		cs := cases[rs.Index]
+		g := rn.gts[cs.S]
+		fmtKey := g.Cfg.format() + "|" + cs.Kind + ":" + cs.Field
+		switch {
+		case rs.TimedOut:
+			// the in-child watchdog should have fired first: the process itself was stuck
+			c.Inconclusive("child watchdog fired on [" + cs.Note + "]")
+			return
+		case rs.Crashed:
+			sig := panicSig(rs.Text)
+			if strings.HasSuffix(sig, "/out-of-memory") {
+				// memory is not judged by C09 (C16 does): the child's address-space limit was hit
+				c.Count("out_of_memory_children", 1)
+				c.Inconclusive("child ran out of memory on [" + cs.Note + "]")
+				return
+			}
+			c.Eval(1)
+			c.Distinct(fmtKey + "|process|crash")
+			c.Violation(sig, fmt.Sprintf("the process died while opening or reading a store with altered record/value bytes [%s]:\n%s", cs.Note, firstLines(rs.Text, 30)),
+				rn.witness(cs, map[string][]byte{"stderr.txt": []byte(rs.Text)}))
+			return
+		}
+		var res result
+		if err := json.Unmarshal(rs.Out, &res); err != nil || res.Err != "" {
+			c.Inconclusive(fmt.Sprintf("case [%s]: %v %s", cs.Note, err, res.Err))
+			return
+		}
+		if os.Getenv("VERIF_C09_DEBUG") != "" {
+			fmt.Printf("case %d [%s] ms=%d hung=%v step=%s idx=%s obs=%v findings=%v\n", rs.Index, cs.Note, res.Millis, res.Hung, res.Step, res.Index, res.Obs, res.Findings)
+		}
+		if res.Hung {
+			if !final {
+				cs.Confirm = true
+				rn.suspects = append(rn.suspects, cs)
+				c.Count("suspected_hangs", 1)
+				return
+			}
+			if res.HangClass == "allocation-bound" {
+				// busy allocating (a corrupted length): slow because of memory, which C09 does not judge
+				c.Count("allocation_bound_slow_cases", 1)
+				c.Inconclusive("still allocating after 120 s alone (memory is judged by C16): [" + cs.Note + "]")
+				return
+			}
+			c.Eval(1)
+			c.Distinct(fmtKey + "|" + res.Step + "|hang")
+			c.Violation(res.Step+"/hang", fmt.Sprintf("%s does not return when run alone in a fresh process (%s; expected: milliseconds) [%s]\n%s", res.Step, res.HangClass, cs.Note, hangStack(res.Stacks)),
+				rn.witness(cs, map[string][]byte{"goroutines.txt": []byte(res.Stacks)}))
+			return
+		}
+		if cs.Kind == "pristine" {
+			// control: the unaltered copy must read back identical through every path
+			bad := len(res.Findings) > 0
+			for _, o := range res.Obs {
+				if strings.Contains(o, "|error:") || strings.Contains(o, "DIFFERENT") || strings.Contains(o, "LOCK") || strings.Contains(o, "lagging") {
+					bad = true
+				}
+			}
+			if bad {
+				c.Inconclusive(fmt.Sprintf("control failed: the unaltered copy of store %s does not read back identical: %v %v", g.Cfg.Name, res.Obs, res.Findings))
+			}
+			c.Count("controls", 1)
+			return
+		}
+		c.Eval(1)
+		c.Count("cases_"+cs.Kind, 1)
+		c.Count("index_"+res.Index, 1)
+		for _, o := range res.Obs {
+			c.Distinct(fmtKey + "|" + o)
+			p := o
+			if i := strings.Index(o, "|"); i >= 0 {
+				p = o[:i] + "|" + strings.SplitN(o[i+1:], ":", 2)[0]
+			}
+			rn.outcomes[p]++
+		}
+		if rn.sampled < 6 && len(res.Obs) > 2 && rs.Index%977 == 0 {
+			rn.sampled++
+			c.Sample(map[string]any{"case": cs.Note, "kind": cs.Kind, "field": cs.Field, "bytes_changed": res.Changed, "observed": res.Obs, "reindex": res.Index})
+		}
+		for _, f := range res.Findings {
+			if f.Sig == "exporttx/returns-holding-export-lock" {
+				// state-based suspicion (mutex held, nobody exporting); confirmed once by a real hang, see below
+				if rn.lockSuspect == nil {
+					cp := cs
+					cp.Confirm = true
+					rn.lockSuspect = &cp
+				}
+				if len(rn.lockCases) < 100000 {
+					rn.lockCases = append(rn.lockCases, f.Detail)
+				}
+				continue
+			}
+			c.Violation(f.Sig, f.Detail, rn.witness(cs, nil))
+		}
+	}
+}
+
+func hangStack(s string) string {
+	// the goroutine of the case is the one inside c09.(*checker).run
+	for _, g := range strings.Split(s, "\n\n") {
+		if strings.Contains(g, "c09.(*checker).run") {
+			return firstLines(g, 30)
+		}
+	}
+	return firstLines(s, 30)
+}
+
+func encodeCases(cs []caseT) [][]byte {
+	out := make([][]byte, len(cs))
+	for i := range cs {
+		out[i], _ = json.Marshal(cs[i])
+	}
+	return out
+}
+
+const asLimit = 12 << 30 // memory is not judged here: far above the 4 GiB a corrupted length can request
+
+func Run(c *fw.Ctx) {
+	if c.ReplayPath != "" {
+		replay(c)
+		return
+	}
+	c.Rule = "pristine stores (plain / flate / gzip / lzw / zlib value logs, embedded values, header v0/v1, tx and kv metadata, several chunks) closed cleanly; every byte of committed tx-log records and referenced value extents located from the commit log and the entries' (vOff,vLen); a case = some of those bytes altered on a copy (every single bit; PRNG 2-8 bits / byte / range; every numeric field to boundary and sibling values, every metadata byte; same-size splices of records, headers, entries, value references, value extents), index directory absent; in a child: Open, ReadTx, ReadValue, ReadTxHeader, ReadTxEntry, ExportTx, TxReader asc/desc from every start, LinearProof/DualProof for every pair, then Get/History of every key once the index is rebuilt; each call must return an error or exactly the committed content (panic, confirmed hang, different content = violation); distinct = (store format x mutation kind:field class x read path x outcome class) observed"
+	c.Assume("ground truth = what was passed to Commit and the acknowledged headers; exports, proofs and Get/History answers are those of a reopen of the pristine store (checked against the log)")
+	c.Assume("(vOff,vLen) of an entry are a locator, not content: they are judged where they are used (ReadValue, ExportTx, Resolve); ExportTx answering 'values unavailable' (digests + truncation flag) is a detection, not different content")
+	c.Assume("while the re-indexing reports an error the index may lag: Get/History must then return only genuine committed versions; once it reports all txs indexed the answers must equal the pristine ones")
+	c.Assume("memory is not judged (children run with a 12 GiB address-space limit); allocation driven by a corrupted length belongs to C16")
+
+	rn := &runner{c: c, outcomes: map[string]int{}}
+	root := c.Dir("stores")
+	var all []caseT
+	perKind := map[string]int{}
+	mr := c.Rand("c09/mutations")
+	located := map[string]int{}
+	for _, cf := range storeList(c) {
+		dir := filepath.Join(root, cf.Name)
+		g, err := build(cf, dir)
+		if err != nil {
+			c.Inconclusive(fmt.Sprintf("store %s: %v", cf.Name, err))
+			continue
+		}
+		s := len(rn.gts)
+		rn.gts = append(rn.gts, g)
+		rn.dirs = append(rn.dirs, dir)
+		located[cf.Name] = len(g.Bytes)
+		m := &gen{g: g, s: s}
+		var allTx []uint64
+		for _, t := range g.Txs {
+			allTx = append(allTx, t.Rec.ID)
+		}
+		m.cases = append(m.cases, caseT{S: s, Kind: "pristine", Field: "none", Tx: allTx, Note: "store " + cf.Name + ": unaltered copy (control)"})
+		m.singleBits(cf.Full)
+		m.fieldTargeted()
+		m.splices(mr, c.N(300, 3000))
+		m.multi(mr, c.N(250, 22000))
+		for _, cs := range m.cases {
+			perKind[cs.Kind]++
+		}
+		all = append(all, m.cases...)
+	}
+	if len(rn.gts) == 0 {
+		return
+	}
+	c.Set("located_record_and_value_bytes", located)
+	c.Set("cases_planned", perKind)
+	rn.setup, _ = json.Marshal(rn.dirs)
+
+	// interleave the stores so that every shard sees all formats and the heavy cases are spread
+	order := c.Rand("c09/order").Perm(len(all))
+	shuffled := make([]caseT, len(all))
+	for i, j := range order {
+		shuffled[i] = all[j]
+	}
+	all = shuffled
+	// development aids (never set by registered commands)
+	if v := os.Getenv("VERIF_C09_KIND"); v != "" {
+		var keep []caseT
+		for _, cs := range all {
+			if strings.Contains(v, cs.Kind) && (os.Getenv("VERIF_C09_FIELD") == "" || strings.Contains(cs.Field, os.Getenv("VERIF_C09_FIELD"))) {
+				keep = append(keep, cs)
+			}
+		}
+		all = keep
+	}
+	if v := os.Getenv("VERIF_C09_MAX"); v != "" {
+		n := 0
+		fmt.Sscan(v, &n)
+		if n < len(all) {
+			all = all[:n]
+		}
+	}
+
+	c.RunCases("c09-read", rn.setup, encodeCases(all), fw.CasesOpts{Workers: 14, CaseTimout: 3 * time.Minute, ASLimit: asLimit}, rn.handle(all, false))
+
+	// hang suspects: alone, fresh idle child each, 60 s limit
+	sus := rn.suspects
+	if len(sus) > 12 {
+		c.Count("suspected_hangs_not_rerun", int64(len(sus)-12))
+		sus = sus[:12]
+	}
+	for _, cs := range sus {
+		one := []caseT{cs}
+		c.RunCases("c09-read", rn.setup, encodeCases(one), fw.CasesOpts{Workers: 1, CaseTimout: 3 * time.Minute, ASLimit: asLimit}, rn.handle(one, true))
+	}
+	// leaked export lock: confirm once that the next ExportTx really never returns
+	if rn.lockSuspect != nil {
+		cs := *rn.lockSuspect
+		one := []caseT{cs}
+		confirmed := false
+		c.RunCases("c09-read", rn.setup, encodeCases(one), fw.CasesOpts{Workers: 1, CaseTimout: 3 * time.Minute, ASLimit: asLimit}, func(rs fw.CaseResult) {
+			var res result
+			if json.Unmarshal(rs.Out, &res) == nil && res.Hung && res.Step == "exporttx-after-lock-left-held" {
+				confirmed = true
+				for i, d := range rn.lockCases {
+					files := map[string][]byte(nil)
+					if i == 0 {
+						files = rn.witness(cs, map[string][]byte{"goroutines.txt": []byte(res.Stacks)})
+						d += "\nconfirmed: run alone in a fresh idle process the next ExportTx did not return:\n" + hangStack(res.Stacks)
+					}
+					c.Violation("exporttx/hang-after-returning-with-export-lock-held", d, files)
+				}
+			}
+		})
+		if !confirmed {
+			c.Inconclusive(fmt.Sprintf("%d cases left the export mutex locked but the solo re-run did not hang", len(rn.lockCases)))
+		}
+	}
+	c.Set("outcomes_by_read_path", rn.outcomes)
+}
+
+func replay(c *fw.Ctx) {
+	b, err := os.ReadFile(filepath.Join(c.ReplayPath, "case.json"))
+	if err != nil {
+		c.Inconclusive("replay: " + err.Error())
+		return
+	}
+	var cs caseT
+	if err := json.Unmarshal(b, &cs); err != nil {
+		c.Inconclusive("replay: " + err.Error())
+		return
+	}
+	cs.S = 0
+	g, err := loadGT(c.ReplayPath)
+	if err != nil {
+		c.Inconclusive("replay: " + err.Error())
+		return
+	}
+	// the pristine files stored next to the case win over the copy inside gt.gob
+	for _, f := range g.Files {
+		if d, err := os.ReadFile(filepath.Join(c.ReplayPath, "pristine__"+strings.ReplaceAll(f, string(filepath.Separator), "__"))); err == nil {
+			g.Data[f] = d
+		}
+	}
+	dir := c.Dir("replay-gt")
+	if gb, err := os.ReadFile(filepath.Join(c.ReplayPath, "gt.gob")); err == nil {
+		os.WriteFile(filepath.Join(dir, "gt.gob"), gb, 0o644)
+	}
+	rn := &runner{c: c, gts: []*groundTruth{g}, dirs: []string{dir}, outcomes: map[string]int{}}
+	rn.setup, _ = json.Marshal(rn.dirs)
+	cs.Confirm = true
+	one := []caseT{cs}
+	c.RunCases("c09-read", rn.setup, encodeCases(one), fw.CasesOpts{Workers: 1, CaseTimout: 3 * time.Minute, ASLimit: asLimit}, func(rs fw.CaseResult) {
+		var res result
+		json.Unmarshal(rs.Out, &res)
+		fmt.Printf("replay [%s]\n  reindex=%s observed=%v\n", cs.Note, res.Index, res.Obs)
+		if res.Hung && res.Step == "exporttx-after-lock-left-held" {
+			c.Eval(1)
+			c.Distinct("replay|exporttx|hang")
+			c.Distinct("replay|exporttx|lock-left-held")
+			c.Violation("exporttx/hang-after-returning-with-export-lock-held", "replay: "+cs.Note+"\n"+hangStack(res.Stacks), nil)
+			return
+		}
+		rn.handle(one, true)(rs)
+		c.Distinct("replay|" + cs.Kind)
+		c.Distinct("replay|" + cs.Field + "|")
+	})
+}
